@@ -13,6 +13,7 @@ import JsonV.Lemmas.GlueFormatNum
 import JsonV.Lemmas.GlueFormatStr
 import JsonV.Lemmas.GlueFormatLayout
 import JsonV.Lemmas.FormatStrictL
+import JsonV.Lemmas.GlueTreeConverse
 import JsonV.Gen.Lits
 
 namespace JsonV.Props.C12
@@ -159,12 +160,53 @@ theorem tokenize_iff_layout (b : Bytes) (ts : List Tok) :
     tokenize b = some ts ↔ WellNested ts ∧ Layout (punct [.top0] ts) b :=
   tokenize_iff_layout' b ts
 
-/-- What remains for the glue with C01's `JText`: the push-down grammar over tokens (`accepts`, with the literal
-grammars and the layout already tied above) generates the same texts as the tree grammar `JValue`.  Validated
-by the correspondence of both `Value.IsValid` (C01) and `Value.Compact` (C12) with the real code on the same texts. -/
-def tokenize_iff_text_full : Prop :=
-  ∀ (key : Bytes → Bytes) (b : Bytes),
-    (tokenize b).isSome = true ↔ Spec.Grammar.JText ⟨false, true⟩ maxDepth key b
+/-- **The model's tokenizer accepts exactly the texts of the C01 grammar** (`JText`: RFC 8259 with permissive
+strings, duplicate names allowed, nesting ≤ maxNestingDepth), for every name-key function.  ⇒: an accepted token
+list is the token list of a tree (`accepts_is_tree`), whose blank layout is a `JValue` (`coreV`); ⇐: induction on
+the derivation builds the tree and its layout (`build_value`). -/
+theorem tokenize_iff_text (key : Bytes → Bytes) (b : Bytes) :
+    (tokenize b).isSome = true ↔ Spec.Grammar.JText ⟨false, true⟩ maxDepth key b := by
+  constructor
+  · intro h
+    cases ht : tokenize b with
+    | none => simp [ht] at h
+    | some ts => exact tokenize_text key b ts ht
+  · intro h
+    obtain ⟨ts, ht⟩ := text_tokenize key b h
+    simp [ht]
+
+/-- **succeed iff valid, against the C01 grammar**: Compact/Indent (any whitespace options) succeed exactly on
+the texts of `JText` in the permissive mode. -/
+theorem format_ok_iff_text (key : Bytes → Bytes) (o : WsOpts) (b : Bytes) :
+    (format o b).isSome = true ↔ Spec.Grammar.JText ⟨false, true⟩ maxDepth key b := by
+  rw [format_ok_iff_partial]; exact tokenize_iff_text key b
+
+/-- and the strict model accepts only texts of the grammar (the strictness of strings is `strict_strings`, the
+uniqueness of names is `tokensOK`; their placement inside `JText (strict, no duplicates)` is not proved) -/
+theorem formatV_ok_text (key : Bytes → Bytes) (o : FOpts) (b : Bytes) (h : (formatV o b).isSome = true) :
+    Spec.Grammar.JText ⟨false, true⟩ maxDepth key b := by
+  unfold formatV at h
+  cases ht : tokenizeV o b with
+  | none => simp [ht] at h
+  | some ts => exact tokenize_text key b ts ((tokenizeV_eq_some o b ts).mp ht).1
+
+def formatV_ok_iff_text_full : Prop :=
+  ∀ (o : FOpts) (b : Bytes), (formatV o b).isSome = true ↔
+    Spec.Grammar.JText ⟨!o.allowInvalidUTF8, o.allowDup⟩ maxDepth (nameKey o) b
+
+/-- Tie A: the literals the renderer emits are the literals of AppendIndent / appendWhitespace / reformatValue /
+reformatObject / reformatArray (regenerated from encode.go). -/
+theorem tie_render_literals :
+    JsonV.Gen.jsontext_encoderState_AppendIndent_strs = [[10]] ∧ JsonV.Gen.jsontext_encoderState_AppendIndent_ints = [0, 1] ∧
+    (nl ⟨[], [], true, false, false⟩ 0).map UInt8.toNat ∈ JsonV.Gen.jsontext_encoderState_AppendIndent_strs ∧
+    JsonV.Gen.jsontext_encoderState_appendWhitespace_strs = [Delim.colon.bytes.map UInt8.toNat, (sp true).map UInt8.toNat,
+      Delim.comma.bytes.map UInt8.toNat, (sp true).map UInt8.toNat] ∧
+    (∀ t ∈ [Tok.null, Tok.tru, Tok.fls], t.bytes.map UInt8.toNat ∈ JsonV.Gen.jsontext_encoderState_reformatValue_strs) ∧
+    (∀ l ∈ [Lex.tok .bo, .tok .eo, .delim .colon, .delim .comma], l.bytes.map UInt8.toNat ∈ JsonV.Gen.jsontext_encoderState_reformatObject_strs) ∧
+    (sp true).map UInt8.toNat ∈ JsonV.Gen.jsontext_encoderState_reformatObject_strs ∧
+    (∀ l ∈ [Lex.tok .ba, .tok .ea, .delim .comma], l.bytes.map UInt8.toNat ∈ JsonV.Gen.jsontext_encoderState_reformatArray_strs) ∧
+    (sp true).map UInt8.toNat ∈ JsonV.Gen.jsontext_encoderState_reformatArray_strs := by
+  decide +kernel
 
 /-! ### Strict model: Value.Format with the validation options (and PreserveRawStrings) -/
 
